@@ -166,8 +166,8 @@ type GenOpts struct {
 	Batch        bool
 	Scans        bool
 	OnlineRetire bool // online log retention (WAL.ManageRetention on the running engine) after flushing everything
-	BigTxPct     int // chance (percent) that a transaction is larger than the 64KB log buffer (0 = 8)
-	TxWeight     int // weight of transactions in the op mix (0 = 8)
+	BigTxPct     int  // chance (percent) that a transaction is larger than the 64KB log buffer (0 = 8)
+	TxWeight     int  // weight of transactions in the op mix (0 = 8)
 }
 
 // GenProgram draws a program.
@@ -345,19 +345,19 @@ type Exec struct {
 	AfterOp    func(x *Exec, op Op)
 
 	// bookkeeping for violation features
-	lastKind   map[string]string // key -> kind of its latest write
-	lastStep   map[string]int
-	maint      []string // maintenance ops so far (with step)
-	maintSteps []int
-	Step       int
-	Trace      []string
-	Failed     bool
-	lastSeq    uint64
-	lastNext   uint64
-	UsedCRange bool
+	lastKind       map[string]string // key -> kind of its latest write
+	lastStep       map[string]int
+	maint          []string // maintenance ops so far (with step)
+	maintSteps     []int
+	Step           int
+	Trace          []string
+	Failed         bool
+	lastSeq        uint64
+	lastNext       uint64
+	UsedCRange     bool
 	RetentionRaced bool // an online retention call overlapped a log rotation (finding D33)
-	WriteErrs  int
-	Writes     int
+	WriteErrs      int
+	Writes         int
 }
 
 func NewExec(dir string, cfg Cfg, res *core.Result, r *core.Rand) (*Exec, error) {
